@@ -52,6 +52,8 @@ type Req struct {
 	NoRet  bool       `json:"noret"` // isolation sessions: no rule of this request returns a value
 	NoData bool       `json:"nodata"` // the request passes an empty data map (its rules then fail: nothing is injected)
 	Bulk   int        `json:"bulk"`   // this many further entries in the data map that no rule looks at (a big request)
+	Tag    bool       `json:"tag"`    // the request's first rule sets the request's stop tag (before it fails, if it does)
+	Odd    bool       `json:"odd"`    // a request the pool refuses or that targets nothing: no promise about what it runs
 	// Trigger: this request performs the update from inside rule TrigRule
 	Trigger  *Update `json:"trigger"`
 	TrigRule string  `json:"trigrule"`
@@ -205,6 +207,7 @@ begin
     req.Note(holdq(req.Id))
     boomcq(req.Id)
   }
+  if tagq(req.Id) { stag.StopTag = true }
   if failq(req.Id) { boom() }
   if condq(req.Id) { if notbool() { x = 1 } }
   if leakq(req.Id) {
@@ -257,6 +260,11 @@ func (d *drv) api() map[string]interface{} {
 					d.doUpdate(rq.Trigger)
 				}
 			}
+		},
+		"tagq": func(q int64) bool {
+			d.mu.Lock()
+			defer d.mu.Unlock()
+			return d.reqs[q] != nil && d.reqs[q].Tag
 		},
 		"failq": func(q int64) bool {
 			d.mu.Lock()
@@ -461,6 +469,10 @@ func (d *drv) request(r *Req, cv bool) {
 		keys = []string{}
 	}
 	fl := r.Fail != "" || d.expectPeekFail(r) || r.NoData || r.Via == "emresp"
+	if r.Tag {
+		// the first rule sets the stop tag: the rules behind it (which would miss their keys) never run
+		fl = r.Fail != ""
+	}
 	d.o.Emit(obs.Event{"ev": "arrive", "q": r.Q, "keys": keys, "names": tn, "fail": fl, "failmay": !fl && d.apiKeyMayBeGone(r),
 		"ord": d.orderOf(r.Method, r.Via)})
 	data := map[string]interface{}{"req": &Obj{Id: r.Q}}
@@ -474,6 +486,9 @@ func (d *drv) request(r *Req, cv bool) {
 		data = map[string]interface{}{}
 	}
 	st := &engine.Stag{}
+	if r.Tag {
+		data["stag"] = st
+	}
 	c := &dispatch.Call{Method: r.Method, Via: r.Via, B: r.B, N: r.N, M: r.M, Names: r.Names, Dag: r.Dag}
 	if c.Via == "" {
 		c.Via = "direct"
@@ -520,7 +535,9 @@ func (d *drv) request(r *Req, cv bool) {
 			vals = append(vals, -999)
 		}
 	}
-	ev := obs.Event{"ev": "req_end", "q": r.Q, "err": err != nil || pv != nil, "panic": pv != nil, "vals": vals, "cv": cv}
+	// full: nothing stops this request, so it must have run every rule it targets
+	full := (d.sess.Kind == "isolation" || d.sess.Kind == "capacity") && !fl && !d.apiKeyMayBeGone(r) && !r.Tag && !r.Odd && r.Trigger == nil
+	ev := obs.Event{"ev": "req_end", "q": r.Q, "err": err != nil || pv != nil, "panic": pv != nil, "vals": vals, "cv": cv, "full": full}
 	if err != nil {
 		m := err.Error()
 		if len(m) > 120 {
